@@ -25,11 +25,7 @@ ASSUMPTIONS = ['floats are reals / complex numbers', 'charges are mathematical i
 
 
 def setup_symbolic(case):
-    if case['params']['struct']['tier'] == 'A':
-        Bd.setup_symbolic_tierA()
-    else:
-        Bd.setup_symbolic_tierB()
-    C.install_faithful_blas()
+    C.setup_symbolic(case['params']['struct']['tier'])
 
 
 def run_one(ctx, W, name, v, tag=None):
@@ -103,7 +99,7 @@ def structs_B(tier, seed):
             charges = [rng.choice(base) for _ in range(nb)]  # duplicates and unsorted on purpose
             legs.append(dict(sizes=sizes, qconj=rng.choice([1, -1]), charges=charges))
         out.append(dict(tier='B', mods=mods, rank=rng.choice([1, 2, 2, 3, 3] + ([4] if tier == 'thorough' else [])), legs=legs,
-                        seed=seed * 1000 + k))
+                        seed=seed * 1000 + k, store_empty=(k % 3 == 0)))
     return out
 
 
@@ -111,22 +107,82 @@ def _variants(spec, tier):
     return spec.quick if tier == 'quick' else spec.variants
 
 
+# measured single-core seconds per (op, variant) on a Tier A U(1) structure (only used to balance the cases)
+COST_A = {('getitem', 'ints'): 18, ('setitem', 'ints'): 13, ('setitem', 'mask_flat'): 26, ('setitem', 'slice_npc'): 20,
+          ('grid_concat', 'none_entry'): 35, ('grid_concat', 'full'): 60, ('change_charge', 'to_Z2'): 16, ('change_charge', 'to_Z3'): 16,
+          ('split_legs', 'first'): 17, ('tensordot', 'int1'): 10, ('tensordot', 'labels'): 7, ('add_leg', 'back'): 7,
+          ('concatenate', 'axis0'): 7, ('permute', 'first'): 6, ('split_legs', 'unsorted'): 6, ('getitem', 'int_first'): 4,
+          ('getitem', 'mixed'): 4, ('getitem', 'mask'): 4, ('iproject', 'mask'): 4, ('iproject', 'two'): 4}
+HEAVY = 12
+
+
+def _balanced(ops, cost, target):
+    chunks, cur, tot = [], [], 0
+    for o in sorted(ops, key=lambda o: -cost.get(tuple(o), 1.5)):
+        c = cost.get(tuple(o), 1.5)
+        if cur and tot + c > target:
+            chunks.append(cur)
+            cur, tot = [], 0
+        cur.append(o)
+        tot += c
+    if cur:
+        chunks.append(cur)
+    return chunks
+
+
 def _chunks(lst, n):
     return [lst[i:i + n] for i in range(0, len(lst), n)]
+
+
+def _opsname(chunk):
+    names = sorted({n for n, _ in chunk})
+    return '+'.join(names) if len(names) <= 4 else '+'.join(names[:3]) + f'+{len(names) - 3}more'
+
+
+PAIR_FIRST = [('transpose', 'perm'), ('conj', 'd'), ('combine_legs', 'all'), ('take_slice', 'one'), ('iproject', 'mask'), ('add_trivial_leg', 'front'),
+              ('scale_axis', 'first'), ('permute', 'first'), ('sort_legcharge', 'default'), ('gauge_total_charge', 'new'), ('concatenate', 'axis0'),
+              ('itranspose', 'perm'), ('extend', 'leg'), ('add', 'same'), ('getitem', 'negstep'), ('tensordot', 'int1')]
+PAIR_SECOND = [('tensordot', 'int1'), ('tensordot', 'full'), ('add', 'same'), ('transpose', 'none'), ('conj', 'd'), ('combine_legs', 'all'),
+               ('inner', 'range'), ('getitem', 'negstep'), ('iscale_prefactor', 'd'), ('sort_legcharge', 'default'), ('norm', 'two'),
+               ('take_slice', 'one'), ('iproject', 'mask'), ('outer', 'd'), ('concatenate', 'axis0'), ('setitem', 'slice_npc')]
+PAIR_FIRST_A = [('transpose', 'perm'), ('conj', 'd'), ('combine_legs', 'all'), ('sort_legcharge', 'default'), ('gauge_total_charge', 'new')]
+PAIR_SECOND_A = [('tensordot', 'int1'), ('add', 'same'), ('combine_legs', 'all'), ('sort_legcharge', 'default'), ('inner', 'range')]
 
 
 def CASES(tier, seed):
     cases = []
     opsA = [(n, v) for n, s in C.OPS.items() if 'A' in s.tiers for v in _variants(s, tier)]
     opsB = [(n, v) for n, s in C.OPS.items() if 'B' in s.tiers for v in s.variants]
-    OA = dict(max_paths=40000, max_wall_s=200 if tier == 'quick' else 1500, validate_paths=2, hard_timeout_s=230 if tier == 'quick' else 1700)
+    OA = dict(max_paths=60000, max_wall_s=200 if tier == 'quick' else 1500, validate_paths=2, hard_timeout_s=230 if tier == 'quick' else 1700)
     for si, st in enumerate(structs_A(tier)):
-        for ci, chunk in enumerate(_chunks(opsA, 4)):
-            cases.append(dict(name=f"A[mod={st['mods']},qconj={[l['qconj'] for l in st['legs']]}]ops{ci}:{'+'.join(sorted({n for n, _ in chunk}))}",
+        first_pattern = st['legs'][0]['qconj'] == 1 and st['legs'][1]['qconj'] == -1
+        ops = opsA if (first_pattern or tier == 'thorough') else [o for o in opsA if COST_A.get(tuple(o), 1.5) < HEAVY]
+        for ci, chunk in enumerate(_balanced(ops, COST_A, 14)):
+            cases.append(dict(name=f"A[mod={st['mods']},qconj={[l['qconj'] for l in st['legs']]}]ops{ci}:{_opsname(chunk)}",
                               fn='op_case', params=dict(struct=st, ops=chunk, cplx=(si % 2 == 0), subset='all'), opts=OA))
     OB = dict(max_paths=5000, max_wall_s=200, validate_paths=2, hard_timeout_s=230)
     for si, st in enumerate(structs_B(tier, seed)):
-        for ci, chunk in enumerate(_chunks(opsB, 12)):
-            cases.append(dict(name=f"B[{si},mod={st['mods']},rank={st['rank']}]ops{ci}:{'+'.join(sorted({n for n, _ in chunk}))}",
+        for ci, chunk in enumerate(_chunks(opsB, 40)):
+            cases.append(dict(name=f"B[{si},mod={st['mods']},rank={st['rank']}]ops{ci}:{_opsname(chunk)}",
                               fn='op_case', params=dict(struct=st, ops=chunk, cplx=(si % 2 == 1), subset='draw' if si % 3 else 'all'), opts=OB))
+    # depth-2 programs over a reduced catalogue: all ordered pairs (op1 then op2 on its result)
+    sB = structs_B(tier, seed)
+    for si in ([1, 7] if tier == 'quick' else range(1, len(sB))):
+        if si >= len(sB):
+            continue
+        st = sB[si]
+        for ci, chunk in enumerate(_chunks(PAIR_FIRST, 5)):
+            cases.append(dict(name=f"pairs-B[{si},mod={st['mods']},rank={st['rank']}]first{ci}:{_opsname(chunk)}", fn='pair_case',
+                              params=dict(struct=st, ops1=chunk, ops2=PAIR_SECOND, cplx=(si % 2 == 0), subset='draw' if si % 2 else 'all'),
+                              opts=dict(OB, max_paths=60000)))
+    sA = structs_A(tier)
+    for si in ([2] if tier == 'quick' else [0, 2, 4]):
+        st = sA[si]
+        for o1 in PAIR_FIRST_A:
+            cases.append(dict(name=f"pairs-A[mod={st['mods']}]first:{o1[0]}", fn='pair_case',
+                              params=dict(struct=st, ops1=[o1], ops2=PAIR_SECOND_A, cplx=True, subset='all'), opts=OA))
+    slow = float(__import__('os').environ.get('VERIF_SLOW', '1') or 1)  # development on a loaded machine only
+    if slow != 1:
+        for c in cases:
+            c['opts'] = dict(c['opts'], max_wall_s=c['opts']['max_wall_s'] * slow, hard_timeout_s=c['opts']['hard_timeout_s'] * slow)
     return cases
